@@ -546,7 +546,7 @@ theorem mem_of_mem_strip {c : Char} {s : List Char} (h : c ∈ strip s) : c ∈ 
   have h3 := List.mem_reverse.mp h2
   exact (List.dropWhile_sublist _).subset h3
 
-instance instDecEqExcept {α : Type} [DecidableEq α] : DecidableEq (Except Err α) := fun a b =>
+instance instDecEqExcept {ε α : Type} [DecidableEq ε] [DecidableEq α] : DecidableEq (Except ε α) := fun a b =>
   match a, b with
   | .ok x, .ok y => if h : x = y then isTrue (by rw [h]) else isFalse (by intro e; cases e; exact h rfl)
   | .error x, .error y => if h : x = y then isTrue (by rw [h]) else isFalse (by intro e; cases e; exact h rfl)
